@@ -557,8 +557,13 @@ fn revocation_key<B: BufRead>(mut i: B) -> Result<SubpacketData> {
         .try_into()
         .map_err(|e| format_err!("invalid revocation class: {:?}", e))?;
     let algorithm = i.read_u8().map(PublicKeyAlgorithm::from)?;
-    // TODO: V5 Keys have 32 octets here
-    let fp = i.read_arr::<20>()?;
+    // the fingerprint of the designated key: 20 octets for a v4 key, 32 for a v5 / v6 one
+    let fp = i.rest()?;
+    ensure!(
+        fp.len() == 20 || fp.len() == 32,
+        "invalid revocation key fingerprint length: {}",
+        fp.len()
+    );
     let key = RevocationKey::new(class, algorithm, &fp);
 
     Ok(SubpacketData::RevocationKey(key))
